@@ -556,7 +556,7 @@ FAC_MEMBERS = _FacMembers()
 LH = "LinAlg/Lanczos.h"
 
 
-def fac_post_fn(mats, vecs, stmts_out, ptr_vecs=()):
+def fac_post_fn(mats, vecs, stmts_out, ptr_vecs=(), track_uses=()):
     """Structural rewrites shared by all factorization functions, then the lexical Eigen-statement abstraction."""
     def fn(b, R):
         # Map declarations
@@ -603,7 +603,7 @@ def fac_post_fn(mats, vecs, stmts_out, ptr_vecs=()):
                 new = new + "\n" * (head.count("\n") - new.count("\n"))
                 b = b[:mh.end()] + new + b[pc:]
             pos = mh.end()
-        b = eigabs.abstract(b, mats, vecs, report=stmts_out, keep_rx=r"^OP_perform_op|MAT_LEFTCOLS|MAPLEN_CHECK|VEC_NEW")
+        b = eigabs.abstract(b, mats, vecs, report=stmts_out, keep_rx=r"^OP_perform_op|MAT_LEFTCOLS|MAPLEN_CHECK|VEC_NEW", track_uses=track_uses)
         return b
     return fn
 
@@ -713,7 +713,7 @@ def factorize_spec(which):
                  real=hdr + ":factorize_from")
 
 
-FACT_OUTER_INV = ("__CPROVER_assigns(i, F->m_beta, *op_counter, g_ops, verif_exc, g_accepted, g_bd_col, F->m_fac_V.cell, F->m_fac_H.cell, __CPROVER_object_whole(F->m_fac_f), "
+FACT_OUTER_INV = ("__CPROVER_assigns(i, F->m_beta, *op_counter, g_ops, verif_exc, g_accepted, g_bd_col, g_vfresh, F->m_fac_V.cell, F->m_fac_H.cell, __CPROVER_object_whole(F->m_fac_f), "
                   "__CPROVER_object_whole(F->m_fac_V.colbuf), __CPROVER_object_whole(Vf), __CPROVER_object_whole(w)) "
                   "__CPROVER_loop_invariant(from_k <= i && i <= to_m && verif_exc == 0 && F->m_beta >= (Scalar)0 && g_bd_col < i && "
                   "old_ops_l + (i - from_k) <= g_ops && g_ops <= old_ops_l + 2 * (i - from_k) && (*op_counter) == old_cnt_l + (g_ops - old_ops_l)) "
@@ -744,13 +744,25 @@ def f_factorize_from(which, report):
     if which == "Arnoldi":
         extra.append(("h-map", r"MapVec h\(&F->m_fac_H\(0, i\), i1\);", "Scalar *h = MAT_COLPTR(&F->m_fac_H, 0, i); __CPROVER_assert(i1 <= F->m_fac_H.rows, @Q@Eigen::Map of a column segment stays inside the column@Q@);", {"max": 1}))
     inner_extra = ", __CPROVER_object_whole(F->m_fac_H.colbuf)" if which == "Arnoldi" else ""
+    # V_def typestate (C07: A V = V H + f e', V'BV = I): a column of V that is mapped as the local vector `v` holds a basis vector of an EARLIER generation
+    # (or nothing) until this iteration stores f/||f|| in it; every read of v before that store uses stale data
+    vmap = re.search(r"MapVec\s+v\(&m_fac_V\(0,\s*%s\),\s*m_n\);" % COL, f.body)
+    track = ("v",) if vmap else ()
     t, R = cgen.emit(f, "factorize_from", ret_c="void", self_type="Fac", self_name="F", members=FAC_MEMBERS,
                      param_types={"op_counter": "REF"}, extra_rules=extra,
-                     post_fn=fac_post_fn(["m_fac_V", "m_fac_H", "V", "Vs"], ["m_fac_f", "w", "Vf", "v", "h"], stm),
+                     post_fn=fac_post_fn(["m_fac_V", "m_fac_H", "V", "Vs"], ["m_fac_f", "w", "Vf", "v", "h"], stm, track_uses=track),
                      maythrow=["OP_perform_op", "expand_basis"], contract=spec.frame_contract(),
                      loop_contracts={0: FACT_OUTER_INV.replace("__CPROVER_object_whole(w))", "__CPROVER_object_whole(w)%s)" % inner_extra),
                                      1: FACT_INNER_INV % inner_extra},
-                     pre_body=" const Index old_ops_l = g_ops; const Index old_cnt_l = (*op_counter); g_bd_col = -1;")
+                     pre_body=" const Index old_ops_l = g_ops; const Index old_cnt_l = (*op_counter); g_bd_col = -1; _Bool g_vfresh = 0;")
+    if track:
+        for nm, rx, rep, mn in (("vmap", r"(Scalar \*v = \(Scalar \*\)\(MAT_COLPTR\(&F->m_fac_V, 0, %s\)\);)" % COL, r"\1 g_vfresh = 0;", 1),
+                                ("vdef", r"HAVOC_VEC\(v\)", "HAVOC_VEC(v); g_vfresh = 1", 1),
+                                ("vuse-op", r"OP_perform_op\(F->m_op, v, ", "VUSE_v; OP_perform_op(F->m_op, v, ", 1)):
+            t, k = re.subn(rx, rep, t)
+            R.fired["vdef:" + nm] = k
+            if k < mn:
+                raise X.ExtractionBreak("%s::factorize_from: V_def typestate rule %s fired %d < %d times" % (which, nm, k, mn))
     report["%s::factorize_from" % which] = R.fired
     report.setdefault("abstracted_statements", {})["%s::factorize_from" % which] = stm
     return t, spec
@@ -802,6 +814,8 @@ def f_fac_init(report):
 DIV_SITE_DEF = r'''
 _Bool g_accepted;      /* ghost: expand_basis returned through its orthogonality acceptance test */
 Index g_bd_col;        /* ghost: column of the current factorize_from() call that was restarted from a random direction (breakdown), -1 if none */
+/* g_vfresh: ghost LOCAL of factorize_from (V_def typestate): the column of V mapped as `v` has been written in this iteration */
+#define VUSE_v __CPROVER_assert(g_vfresh, "V_def: the mapped column v of V is read only after this iteration has stored f/||f|| in it (no basis vector of an earlier generation is used)")
 /* audited floating division site: a zero divisor here is a division by zero on a real input (C13 div.audit) */
 _Bool g_div_zero;      /* ghost: set when an audited division site is reached with a zero divisor */
 #define DIV_SITE(d, what) do { if ((d) == (Scalar)0) g_div_zero = 1; } while (0)
